@@ -14,6 +14,8 @@
 #include <csignal>
 #include <unistd.h>
 #include <exception>
+#include <atomic>
+#include <chrono>
 
 namespace vf {
 
@@ -99,6 +101,48 @@ static std::set<const void *> g_registry;
 inline void regAdd(const void * p) { NoFault nf; if(! g_registry.insert(p).second) fatalEvent("double-construct"); }
 inline void regDel(const void * p) { NoFault nf; if(g_registry.erase(p) != 1) fatalEvent("double-destroy"); }
 inline void regUse(const void * p) { if(g_registry.count(p) != 1) fatalEvent("use-after-destroy"); }
+
+// ---- tracked threading policy (W_THREADING=3): GeneralThreading<TrackedMutex, TrackedAtomic, TrackedCondVar>.  Every mutex and atomic of the
+// library registers its address while it is alive; locking, unlocking, reading or writing one that is no longer alive (a callback list or map
+// node destroyed while a traversal still stands in it) is recorded as use-after-destroy, for which no specification has a step.  Locking a
+// mutex the (only) thread already holds is the deterministic form of "a lock held across user code": recorded as hang at once.
+struct TrackedMutex
+{
+	bool held;
+	TrackedMutex() : held(false) { regAdd(this); }
+	TrackedMutex(const TrackedMutex &) = delete;
+	~TrackedMutex() { if(held) fatalEvent("mutex-destroyed-locked"); regDel(this); }
+	void lock() { regUse(this); if(held) { fatalEvent("hang"); std::fflush(g_out); _exit(3); } held = true; }
+	bool try_lock() { regUse(this); if(held) return false; held = true; return true; }
+	void unlock() { regUse(this); if(! held) fatalEvent("unlock-not-held"); held = false; }
+};
+template <typename T>
+struct TrackedAtomic
+{
+	T value;
+	TrackedAtomic() noexcept { regAdd(this); }                       // like std::atomic before C++20: the value is NOT initialised
+	TrackedAtomic(T desired) noexcept : value(desired) { regAdd(this); }
+	TrackedAtomic(const TrackedAtomic &) = delete;
+	~TrackedAtomic() { regDel(this); }
+	void store(T desired, std::memory_order = std::memory_order_seq_cst) noexcept { regUse(this); value = desired; }
+	T load(std::memory_order = std::memory_order_seq_cst) const noexcept { regUse(this); return value; }
+	T exchange(T desired, std::memory_order = std::memory_order_seq_cst) noexcept { regUse(this); const T previous = value; value = desired; return previous; }
+	T operator ++ () noexcept { regUse(this); return ++value; }
+	T operator -- () noexcept { regUse(this); return --value; }
+	T operator = (T desired) noexcept { regUse(this); value = desired; return desired; }
+	operator T () const noexcept { regUse(this); return value; }
+};
+struct TrackedCondVar
+{
+	TrackedCondVar() { regAdd(this); }
+	~TrackedCondVar() { regDel(this); }
+	void notify_one() noexcept { regUse(this); }
+	void notify_all() noexcept { regUse(this); }
+	// one thread only: a wait whose predicate is false would never end; a timed wait whose predicate is false times out
+	template <class Lock, class Predicate> void wait(Lock &, Predicate pred) { regUse(this); if(! pred()) { fatalEvent("hang"); std::fflush(g_out); _exit(3); } }
+	template <class Lock, class Rep, class Period, class Predicate>
+	bool wait_for(Lock &, const std::chrono::duration<Rep, Period> &, Predicate pred) { regUse(this); return pred(); }
+};
 
 } // namespace vf
 
